@@ -2,9 +2,9 @@
 // module is built with the build tag "verif": without the tag On is the constant
 // false, every hook site `if vtrace.On { ... }` is dead code and Emit is empty.
 //
-// With the tag, a call that wants to be traced runs between Begin and End on its own
-// goroutine; the instrumented code appends events to that goroutine's buffer.
-// Hooks only read the state they report.
+// With the tag, a call that wants to be traced runs between Begin and End; the
+// instrumented code appends events to the active recording (one at a time per
+// process). Hooks only read the state they report.
 package vtrace
 
 // Event is one recorded step: a name and alternating key/value pairs.
